@@ -53,12 +53,36 @@ def run_blocked(case) -> dict:
         with ms[0], ms[1] as b, ms[2]:
             return nxt(k)
 
+    lk = threading.Lock()
+    lk.acquire()
+    leaf_mgrs: List[Any] = []
+    leaf_style = case.get("leaf", 0)
+
     def nxt(k):
         if k == depth:
-            started.set()
-            ev.wait(20)
+            return leaf()
         else:
             level(k + 1)
+
+    def leaf():
+        # the innermost Python frame blocks in a C-level call (its stack pointer is not saved: the value stack is trimmed
+        # at the handler depth of the table entry covering the call instruction)
+        started.set()
+        if leaf_style == 0:
+            ev.wait(20)
+        elif leaf_style == 1:
+            leaf_mgrs.extend([M(), M()])
+            with leaf_mgrs[0] as a, leaf_mgrs[1]:
+                return lk.acquire(True, 20)          # the call is the last instruction of the with range
+        elif leaf_style == 2:
+            leaf_mgrs.append(M())
+            with leaf_mgrs[0]:
+                lk.acquire(True, 20)
+        else:
+            leaf_mgrs.append(M())
+            args = (True, 20)
+            with leaf_mgrs[0]:
+                return lk.acquire(*args)
 
     t = threading.Thread(target=level, args=(0,), daemon=True)
     probs = []
@@ -71,6 +95,20 @@ def run_blocked(case) -> dict:
         st = stackscope.extract(t)
         if st.error is not None:
             probs.append(f"blocked thread: error {st.error!r}")
+        import time as _t
+
+        _t.sleep(0.05)       # let the leaf reach its blocking call
+        st = stackscope.extract(t)
+        if st.error is not None:
+            probs.append(f"blocked thread: error {st.error!r}")
+        lf = [f for f in st.frames if f.funcname == "leaf"]
+        if len(lf) != 1:
+            probs.append(f"blocked thread: expected one leaf frame, got {len(lf)}")
+        elif leaf_style != 0:
+            got = [c.obj for c in lf[0].contexts]
+            if got != leaf_mgrs or any(c.is_exiting for c in lf[0].contexts):
+                probs.append(f"blocked thread (leaf style {leaf_style}): the frame blocked in a C call inside its with block reports contexts "
+                             f"{got}, its active managers are {leaf_mgrs}")
         mine = [f for f in st.frames if f.funcname in ("level", "nxt")]
         names = [f.funcname for f in st.frames]
         want_names = ["level", "nxt"] * (depth + 1)
@@ -91,6 +129,7 @@ def run_blocked(case) -> dict:
                 probs.append(f"blocked thread: level {k} contexts {got} are not its {len(mgrs[k])} active managers")
     finally:
         ev.set()
+        lk.release()
         t.join(5)
     st2 = stackscope.extract(t)
     if st2.frames or st2.error is not None:
@@ -164,7 +203,7 @@ class C07(PropCheck):
         out = []
         for depth in range(0, 7 if tier == "thorough" else 5):
             for _ in range(2 if tier == "quick" else 6):
-                out.append({"k": "blocked", "depth": depth, "nest": [rng.randint(0, 3) for _ in range(depth + 1)]})
+                out.append({"k": "blocked", "depth": depth, "nest": [rng.randint(0, 3) for _ in range(depth + 1)], "leaf": rng.randrange(4)})
         scheds: List[dict] = [{}]
         for r in range(0, 14):
             for a in range(1, 5):
